@@ -260,9 +260,16 @@ def _worker_run(cases):
     except BaseException as e:  # a crash of the harness itself is reported, not hidden
       # ... unless it is the implementation that raised (innermost frame inside the repository) at a point where the
       # harness expects it to return: that is an observation about the code on this very input
+      # (frames of the standard library below the repository's frame count as the repository's: `tokenize` raising
+      # under `config_str`, say)
       tb, last = e.__traceback__, None
+      here = os.path.realpath(os.path.dirname(__file__)) + os.sep
+      there = os.path.realpath(str(REPO)) + os.sep
       while tb is not None:
-        last, tb = tb.tb_frame.f_code.co_filename, tb.tb_next
+        fn = os.path.realpath(tb.tb_frame.f_code.co_filename)
+        if fn.startswith(here) or fn.startswith(there):
+          last = fn
+        tb = tb.tb_next
       out.append({'harness_exception': err_class(e), 'trace': traceback.format_exc()[-1500:],
                   'raised_in_repo': bool(last) and os.path.realpath(last).startswith(os.path.realpath(str(REPO)) + os.sep)})
   return out
